@@ -41,7 +41,11 @@
      (h1) Close starts only while no sender is between its blockWrites check and its channel
           send (finding F14);
      (h2) Close stops the oracle only while no NewTransaction waits in readTs, and no
-          NewTransaction begins afterwards.                                              *)
+          NewTransaction begins afterwards;
+     (h3) DropAll/DropPrefix's blockWrite succeeds only while no sender is between its
+          blockWrites check and its channel send (DropPrefix reads through db.View before it
+          restarts the writer: it would wait for that sender's commit, which waits for the
+          writer).                                                                      *)
 From Coq Require Import List Arith Bool Lia.
 Import ListNotations.
 
@@ -66,7 +70,7 @@ Inductive flst := FIdle | FBuild | FExited.
 Inductive cst := CIdle | CL0 | CLi (blk : bool) | CExit.
 Inductive gst := GIdle | GRun | GPassed | GWait.
 Inductive cph := CNot | CGC | CSigW | CWaitW | CCloseCh | CMt | CStopF | CWaitF | CWaitC | COrc | CDone.
-Inductive dph := DNone | DSig | DWaitW | DDrain (k : nat) | DWrite | DStopF | DWaitF | DFlushMt
+Inductive dph := DNone | DSig | DWaitW | DDrain (k : nat) | DWrite | DStopF | DWaitF | DView | DFlushMt
                | DStopC | DWaitC | DDo | DRestart.
 
 Record st := mkSt {
@@ -97,6 +101,7 @@ Record st := mkSt {
   gctaken : bool;  (* Close's waitOnGC has taken the garbageCh token for good *)
   clo : cph;     (* DB.Close, next action *)
   drp : dph;     (* DropAll/DropPrefix (prepareToDrop ...), next action *)
+  dkind : bool;  (* the drop in progress is a DropPrefix (true) or a DropAll (false) *)
   crashed : bool;  (* the process panicked (send on a closed channel, nil memtable) *)
   r_ok : nat;    (* requests acknowledged without error (Commit returned nil) *)
   r_blk : nat;   (* commits returned ErrBlockedWrites *)
@@ -106,51 +111,52 @@ Record st := mkSt {
   r_dblk : nat (* DropAll/DropPrefix returned ErrBlockedWrites *)
 }.
 
-Definition set_lockq (v : nat) (s : st) : st := mkSt v (hold s) (wch s) (wclosed s) (w s) (job s) (mt s) (fch s) (fclosed s) (fl s) (l0 s) (c0 s) (oidle s) (ol0 s) (oli s) (olib s) (oexit s) (csig s) (bw s) (sig s) (stale s) (markalive s) (rdwait s) (g s) (gctaken s) (clo s) (drp s) (crashed s) (r_ok s) (r_blk s) (r_rd s) (r_misc s) (r_drop s) (r_dblk s).
-Definition set_hold (v : hst) (s : st) : st := mkSt (lockq s) v (wch s) (wclosed s) (w s) (job s) (mt s) (fch s) (fclosed s) (fl s) (l0 s) (c0 s) (oidle s) (ol0 s) (oli s) (olib s) (oexit s) (csig s) (bw s) (sig s) (stale s) (markalive s) (rdwait s) (g s) (gctaken s) (clo s) (drp s) (crashed s) (r_ok s) (r_blk s) (r_rd s) (r_misc s) (r_drop s) (r_dblk s).
-Definition set_wch (v : nat) (s : st) : st := mkSt (lockq s) (hold s) v (wclosed s) (w s) (job s) (mt s) (fch s) (fclosed s) (fl s) (l0 s) (c0 s) (oidle s) (ol0 s) (oli s) (olib s) (oexit s) (csig s) (bw s) (sig s) (stale s) (markalive s) (rdwait s) (g s) (gctaken s) (clo s) (drp s) (crashed s) (r_ok s) (r_blk s) (r_rd s) (r_misc s) (r_drop s) (r_dblk s).
-Definition set_wclosed (v : bool) (s : st) : st := mkSt (lockq s) (hold s) (wch s) v (w s) (job s) (mt s) (fch s) (fclosed s) (fl s) (l0 s) (c0 s) (oidle s) (ol0 s) (oli s) (olib s) (oexit s) (csig s) (bw s) (sig s) (stale s) (markalive s) (rdwait s) (g s) (gctaken s) (clo s) (drp s) (crashed s) (r_ok s) (r_blk s) (r_rd s) (r_misc s) (r_drop s) (r_dblk s).
-Definition set_w (v : wst) (s : st) : st := mkSt (lockq s) (hold s) (wch s) (wclosed s) v (job s) (mt s) (fch s) (fclosed s) (fl s) (l0 s) (c0 s) (oidle s) (ol0 s) (oli s) (olib s) (oexit s) (csig s) (bw s) (sig s) (stale s) (markalive s) (rdwait s) (g s) (gctaken s) (clo s) (drp s) (crashed s) (r_ok s) (r_blk s) (r_rd s) (r_misc s) (r_drop s) (r_dblk s).
-Definition set_job (v : jst) (s : st) : st := mkSt (lockq s) (hold s) (wch s) (wclosed s) (w s) v (mt s) (fch s) (fclosed s) (fl s) (l0 s) (c0 s) (oidle s) (ol0 s) (oli s) (olib s) (oexit s) (csig s) (bw s) (sig s) (stale s) (markalive s) (rdwait s) (g s) (gctaken s) (clo s) (drp s) (crashed s) (r_ok s) (r_blk s) (r_rd s) (r_misc s) (r_drop s) (r_dblk s).
-Definition set_mt (v : mst) (s : st) : st := mkSt (lockq s) (hold s) (wch s) (wclosed s) (w s) (job s) v (fch s) (fclosed s) (fl s) (l0 s) (c0 s) (oidle s) (ol0 s) (oli s) (olib s) (oexit s) (csig s) (bw s) (sig s) (stale s) (markalive s) (rdwait s) (g s) (gctaken s) (clo s) (drp s) (crashed s) (r_ok s) (r_blk s) (r_rd s) (r_misc s) (r_drop s) (r_dblk s).
-Definition set_fch (v : nat) (s : st) : st := mkSt (lockq s) (hold s) (wch s) (wclosed s) (w s) (job s) (mt s) v (fclosed s) (fl s) (l0 s) (c0 s) (oidle s) (ol0 s) (oli s) (olib s) (oexit s) (csig s) (bw s) (sig s) (stale s) (markalive s) (rdwait s) (g s) (gctaken s) (clo s) (drp s) (crashed s) (r_ok s) (r_blk s) (r_rd s) (r_misc s) (r_drop s) (r_dblk s).
-Definition set_fclosed (v : bool) (s : st) : st := mkSt (lockq s) (hold s) (wch s) (wclosed s) (w s) (job s) (mt s) (fch s) v (fl s) (l0 s) (c0 s) (oidle s) (ol0 s) (oli s) (olib s) (oexit s) (csig s) (bw s) (sig s) (stale s) (markalive s) (rdwait s) (g s) (gctaken s) (clo s) (drp s) (crashed s) (r_ok s) (r_blk s) (r_rd s) (r_misc s) (r_drop s) (r_dblk s).
-Definition set_fl (v : flst) (s : st) : st := mkSt (lockq s) (hold s) (wch s) (wclosed s) (w s) (job s) (mt s) (fch s) (fclosed s) v (l0 s) (c0 s) (oidle s) (ol0 s) (oli s) (olib s) (oexit s) (csig s) (bw s) (sig s) (stale s) (markalive s) (rdwait s) (g s) (gctaken s) (clo s) (drp s) (crashed s) (r_ok s) (r_blk s) (r_rd s) (r_misc s) (r_drop s) (r_dblk s).
-Definition set_l0 (v : nat) (s : st) : st := mkSt (lockq s) (hold s) (wch s) (wclosed s) (w s) (job s) (mt s) (fch s) (fclosed s) (fl s) v (c0 s) (oidle s) (ol0 s) (oli s) (olib s) (oexit s) (csig s) (bw s) (sig s) (stale s) (markalive s) (rdwait s) (g s) (gctaken s) (clo s) (drp s) (crashed s) (r_ok s) (r_blk s) (r_rd s) (r_misc s) (r_drop s) (r_dblk s).
-Definition set_c0 (v : cst) (s : st) : st := mkSt (lockq s) (hold s) (wch s) (wclosed s) (w s) (job s) (mt s) (fch s) (fclosed s) (fl s) (l0 s) v (oidle s) (ol0 s) (oli s) (olib s) (oexit s) (csig s) (bw s) (sig s) (stale s) (markalive s) (rdwait s) (g s) (gctaken s) (clo s) (drp s) (crashed s) (r_ok s) (r_blk s) (r_rd s) (r_misc s) (r_drop s) (r_dblk s).
-Definition set_oidle (v : nat) (s : st) : st := mkSt (lockq s) (hold s) (wch s) (wclosed s) (w s) (job s) (mt s) (fch s) (fclosed s) (fl s) (l0 s) (c0 s) v (ol0 s) (oli s) (olib s) (oexit s) (csig s) (bw s) (sig s) (stale s) (markalive s) (rdwait s) (g s) (gctaken s) (clo s) (drp s) (crashed s) (r_ok s) (r_blk s) (r_rd s) (r_misc s) (r_drop s) (r_dblk s).
-Definition set_ol0 (v : nat) (s : st) : st := mkSt (lockq s) (hold s) (wch s) (wclosed s) (w s) (job s) (mt s) (fch s) (fclosed s) (fl s) (l0 s) (c0 s) (oidle s) v (oli s) (olib s) (oexit s) (csig s) (bw s) (sig s) (stale s) (markalive s) (rdwait s) (g s) (gctaken s) (clo s) (drp s) (crashed s) (r_ok s) (r_blk s) (r_rd s) (r_misc s) (r_drop s) (r_dblk s).
-Definition set_oli (v : nat) (s : st) : st := mkSt (lockq s) (hold s) (wch s) (wclosed s) (w s) (job s) (mt s) (fch s) (fclosed s) (fl s) (l0 s) (c0 s) (oidle s) (ol0 s) v (olib s) (oexit s) (csig s) (bw s) (sig s) (stale s) (markalive s) (rdwait s) (g s) (gctaken s) (clo s) (drp s) (crashed s) (r_ok s) (r_blk s) (r_rd s) (r_misc s) (r_drop s) (r_dblk s).
-Definition set_olib (v : nat) (s : st) : st := mkSt (lockq s) (hold s) (wch s) (wclosed s) (w s) (job s) (mt s) (fch s) (fclosed s) (fl s) (l0 s) (c0 s) (oidle s) (ol0 s) (oli s) v (oexit s) (csig s) (bw s) (sig s) (stale s) (markalive s) (rdwait s) (g s) (gctaken s) (clo s) (drp s) (crashed s) (r_ok s) (r_blk s) (r_rd s) (r_misc s) (r_drop s) (r_dblk s).
-Definition set_oexit (v : nat) (s : st) : st := mkSt (lockq s) (hold s) (wch s) (wclosed s) (w s) (job s) (mt s) (fch s) (fclosed s) (fl s) (l0 s) (c0 s) (oidle s) (ol0 s) (oli s) (olib s) v (csig s) (bw s) (sig s) (stale s) (markalive s) (rdwait s) (g s) (gctaken s) (clo s) (drp s) (crashed s) (r_ok s) (r_blk s) (r_rd s) (r_misc s) (r_drop s) (r_dblk s).
-Definition set_csig (v : bool) (s : st) : st := mkSt (lockq s) (hold s) (wch s) (wclosed s) (w s) (job s) (mt s) (fch s) (fclosed s) (fl s) (l0 s) (c0 s) (oidle s) (ol0 s) (oli s) (olib s) (oexit s) v (bw s) (sig s) (stale s) (markalive s) (rdwait s) (g s) (gctaken s) (clo s) (drp s) (crashed s) (r_ok s) (r_blk s) (r_rd s) (r_misc s) (r_drop s) (r_dblk s).
-Definition set_bw (v : bool) (s : st) : st := mkSt (lockq s) (hold s) (wch s) (wclosed s) (w s) (job s) (mt s) (fch s) (fclosed s) (fl s) (l0 s) (c0 s) (oidle s) (ol0 s) (oli s) (olib s) (oexit s) (csig s) v (sig s) (stale s) (markalive s) (rdwait s) (g s) (gctaken s) (clo s) (drp s) (crashed s) (r_ok s) (r_blk s) (r_rd s) (r_misc s) (r_drop s) (r_dblk s).
-Definition set_sig (v : bool) (s : st) : st := mkSt (lockq s) (hold s) (wch s) (wclosed s) (w s) (job s) (mt s) (fch s) (fclosed s) (fl s) (l0 s) (c0 s) (oidle s) (ol0 s) (oli s) (olib s) (oexit s) (csig s) (bw s) v (stale s) (markalive s) (rdwait s) (g s) (gctaken s) (clo s) (drp s) (crashed s) (r_ok s) (r_blk s) (r_rd s) (r_misc s) (r_drop s) (r_dblk s).
-Definition set_stale (v : bool) (s : st) : st := mkSt (lockq s) (hold s) (wch s) (wclosed s) (w s) (job s) (mt s) (fch s) (fclosed s) (fl s) (l0 s) (c0 s) (oidle s) (ol0 s) (oli s) (olib s) (oexit s) (csig s) (bw s) (sig s) v (markalive s) (rdwait s) (g s) (gctaken s) (clo s) (drp s) (crashed s) (r_ok s) (r_blk s) (r_rd s) (r_misc s) (r_drop s) (r_dblk s).
-Definition set_markalive (v : bool) (s : st) : st := mkSt (lockq s) (hold s) (wch s) (wclosed s) (w s) (job s) (mt s) (fch s) (fclosed s) (fl s) (l0 s) (c0 s) (oidle s) (ol0 s) (oli s) (olib s) (oexit s) (csig s) (bw s) (sig s) (stale s) v (rdwait s) (g s) (gctaken s) (clo s) (drp s) (crashed s) (r_ok s) (r_blk s) (r_rd s) (r_misc s) (r_drop s) (r_dblk s).
-Definition set_rdwait (v : nat) (s : st) : st := mkSt (lockq s) (hold s) (wch s) (wclosed s) (w s) (job s) (mt s) (fch s) (fclosed s) (fl s) (l0 s) (c0 s) (oidle s) (ol0 s) (oli s) (olib s) (oexit s) (csig s) (bw s) (sig s) (stale s) (markalive s) v (g s) (gctaken s) (clo s) (drp s) (crashed s) (r_ok s) (r_blk s) (r_rd s) (r_misc s) (r_drop s) (r_dblk s).
-Definition set_g (v : gst) (s : st) : st := mkSt (lockq s) (hold s) (wch s) (wclosed s) (w s) (job s) (mt s) (fch s) (fclosed s) (fl s) (l0 s) (c0 s) (oidle s) (ol0 s) (oli s) (olib s) (oexit s) (csig s) (bw s) (sig s) (stale s) (markalive s) (rdwait s) v (gctaken s) (clo s) (drp s) (crashed s) (r_ok s) (r_blk s) (r_rd s) (r_misc s) (r_drop s) (r_dblk s).
-Definition set_gctaken (v : bool) (s : st) : st := mkSt (lockq s) (hold s) (wch s) (wclosed s) (w s) (job s) (mt s) (fch s) (fclosed s) (fl s) (l0 s) (c0 s) (oidle s) (ol0 s) (oli s) (olib s) (oexit s) (csig s) (bw s) (sig s) (stale s) (markalive s) (rdwait s) (g s) v (clo s) (drp s) (crashed s) (r_ok s) (r_blk s) (r_rd s) (r_misc s) (r_drop s) (r_dblk s).
-Definition set_clo (v : cph) (s : st) : st := mkSt (lockq s) (hold s) (wch s) (wclosed s) (w s) (job s) (mt s) (fch s) (fclosed s) (fl s) (l0 s) (c0 s) (oidle s) (ol0 s) (oli s) (olib s) (oexit s) (csig s) (bw s) (sig s) (stale s) (markalive s) (rdwait s) (g s) (gctaken s) v (drp s) (crashed s) (r_ok s) (r_blk s) (r_rd s) (r_misc s) (r_drop s) (r_dblk s).
-Definition set_drp (v : dph) (s : st) : st := mkSt (lockq s) (hold s) (wch s) (wclosed s) (w s) (job s) (mt s) (fch s) (fclosed s) (fl s) (l0 s) (c0 s) (oidle s) (ol0 s) (oli s) (olib s) (oexit s) (csig s) (bw s) (sig s) (stale s) (markalive s) (rdwait s) (g s) (gctaken s) (clo s) v (crashed s) (r_ok s) (r_blk s) (r_rd s) (r_misc s) (r_drop s) (r_dblk s).
-Definition set_crashed (v : bool) (s : st) : st := mkSt (lockq s) (hold s) (wch s) (wclosed s) (w s) (job s) (mt s) (fch s) (fclosed s) (fl s) (l0 s) (c0 s) (oidle s) (ol0 s) (oli s) (olib s) (oexit s) (csig s) (bw s) (sig s) (stale s) (markalive s) (rdwait s) (g s) (gctaken s) (clo s) (drp s) v (r_ok s) (r_blk s) (r_rd s) (r_misc s) (r_drop s) (r_dblk s).
-Definition set_r_ok (v : nat) (s : st) : st := mkSt (lockq s) (hold s) (wch s) (wclosed s) (w s) (job s) (mt s) (fch s) (fclosed s) (fl s) (l0 s) (c0 s) (oidle s) (ol0 s) (oli s) (olib s) (oexit s) (csig s) (bw s) (sig s) (stale s) (markalive s) (rdwait s) (g s) (gctaken s) (clo s) (drp s) (crashed s) v (r_blk s) (r_rd s) (r_misc s) (r_drop s) (r_dblk s).
-Definition set_r_blk (v : nat) (s : st) : st := mkSt (lockq s) (hold s) (wch s) (wclosed s) (w s) (job s) (mt s) (fch s) (fclosed s) (fl s) (l0 s) (c0 s) (oidle s) (ol0 s) (oli s) (olib s) (oexit s) (csig s) (bw s) (sig s) (stale s) (markalive s) (rdwait s) (g s) (gctaken s) (clo s) (drp s) (crashed s) (r_ok s) v (r_rd s) (r_misc s) (r_drop s) (r_dblk s).
-Definition set_r_rd (v : nat) (s : st) : st := mkSt (lockq s) (hold s) (wch s) (wclosed s) (w s) (job s) (mt s) (fch s) (fclosed s) (fl s) (l0 s) (c0 s) (oidle s) (ol0 s) (oli s) (olib s) (oexit s) (csig s) (bw s) (sig s) (stale s) (markalive s) (rdwait s) (g s) (gctaken s) (clo s) (drp s) (crashed s) (r_ok s) (r_blk s) v (r_misc s) (r_drop s) (r_dblk s).
-Definition set_r_misc (v : nat) (s : st) : st := mkSt (lockq s) (hold s) (wch s) (wclosed s) (w s) (job s) (mt s) (fch s) (fclosed s) (fl s) (l0 s) (c0 s) (oidle s) (ol0 s) (oli s) (olib s) (oexit s) (csig s) (bw s) (sig s) (stale s) (markalive s) (rdwait s) (g s) (gctaken s) (clo s) (drp s) (crashed s) (r_ok s) (r_blk s) (r_rd s) v (r_drop s) (r_dblk s).
-Definition set_r_drop (v : nat) (s : st) : st := mkSt (lockq s) (hold s) (wch s) (wclosed s) (w s) (job s) (mt s) (fch s) (fclosed s) (fl s) (l0 s) (c0 s) (oidle s) (ol0 s) (oli s) (olib s) (oexit s) (csig s) (bw s) (sig s) (stale s) (markalive s) (rdwait s) (g s) (gctaken s) (clo s) (drp s) (crashed s) (r_ok s) (r_blk s) (r_rd s) (r_misc s) v (r_dblk s).
-Definition set_r_dblk (v : nat) (s : st) : st := mkSt (lockq s) (hold s) (wch s) (wclosed s) (w s) (job s) (mt s) (fch s) (fclosed s) (fl s) (l0 s) (c0 s) (oidle s) (ol0 s) (oli s) (olib s) (oexit s) (csig s) (bw s) (sig s) (stale s) (markalive s) (rdwait s) (g s) (gctaken s) (clo s) (drp s) (crashed s) (r_ok s) (r_blk s) (r_rd s) (r_misc s) (r_drop s) v.
+Definition set_lockq (v : nat) (s : st) : st := mkSt v (hold s) (wch s) (wclosed s) (w s) (job s) (mt s) (fch s) (fclosed s) (fl s) (l0 s) (c0 s) (oidle s) (ol0 s) (oli s) (olib s) (oexit s) (csig s) (bw s) (sig s) (stale s) (markalive s) (rdwait s) (g s) (gctaken s) (clo s) (drp s) (dkind s) (crashed s) (r_ok s) (r_blk s) (r_rd s) (r_misc s) (r_drop s) (r_dblk s).
+Definition set_hold (v : hst) (s : st) : st := mkSt (lockq s) v (wch s) (wclosed s) (w s) (job s) (mt s) (fch s) (fclosed s) (fl s) (l0 s) (c0 s) (oidle s) (ol0 s) (oli s) (olib s) (oexit s) (csig s) (bw s) (sig s) (stale s) (markalive s) (rdwait s) (g s) (gctaken s) (clo s) (drp s) (dkind s) (crashed s) (r_ok s) (r_blk s) (r_rd s) (r_misc s) (r_drop s) (r_dblk s).
+Definition set_wch (v : nat) (s : st) : st := mkSt (lockq s) (hold s) v (wclosed s) (w s) (job s) (mt s) (fch s) (fclosed s) (fl s) (l0 s) (c0 s) (oidle s) (ol0 s) (oli s) (olib s) (oexit s) (csig s) (bw s) (sig s) (stale s) (markalive s) (rdwait s) (g s) (gctaken s) (clo s) (drp s) (dkind s) (crashed s) (r_ok s) (r_blk s) (r_rd s) (r_misc s) (r_drop s) (r_dblk s).
+Definition set_wclosed (v : bool) (s : st) : st := mkSt (lockq s) (hold s) (wch s) v (w s) (job s) (mt s) (fch s) (fclosed s) (fl s) (l0 s) (c0 s) (oidle s) (ol0 s) (oli s) (olib s) (oexit s) (csig s) (bw s) (sig s) (stale s) (markalive s) (rdwait s) (g s) (gctaken s) (clo s) (drp s) (dkind s) (crashed s) (r_ok s) (r_blk s) (r_rd s) (r_misc s) (r_drop s) (r_dblk s).
+Definition set_w (v : wst) (s : st) : st := mkSt (lockq s) (hold s) (wch s) (wclosed s) v (job s) (mt s) (fch s) (fclosed s) (fl s) (l0 s) (c0 s) (oidle s) (ol0 s) (oli s) (olib s) (oexit s) (csig s) (bw s) (sig s) (stale s) (markalive s) (rdwait s) (g s) (gctaken s) (clo s) (drp s) (dkind s) (crashed s) (r_ok s) (r_blk s) (r_rd s) (r_misc s) (r_drop s) (r_dblk s).
+Definition set_job (v : jst) (s : st) : st := mkSt (lockq s) (hold s) (wch s) (wclosed s) (w s) v (mt s) (fch s) (fclosed s) (fl s) (l0 s) (c0 s) (oidle s) (ol0 s) (oli s) (olib s) (oexit s) (csig s) (bw s) (sig s) (stale s) (markalive s) (rdwait s) (g s) (gctaken s) (clo s) (drp s) (dkind s) (crashed s) (r_ok s) (r_blk s) (r_rd s) (r_misc s) (r_drop s) (r_dblk s).
+Definition set_mt (v : mst) (s : st) : st := mkSt (lockq s) (hold s) (wch s) (wclosed s) (w s) (job s) v (fch s) (fclosed s) (fl s) (l0 s) (c0 s) (oidle s) (ol0 s) (oli s) (olib s) (oexit s) (csig s) (bw s) (sig s) (stale s) (markalive s) (rdwait s) (g s) (gctaken s) (clo s) (drp s) (dkind s) (crashed s) (r_ok s) (r_blk s) (r_rd s) (r_misc s) (r_drop s) (r_dblk s).
+Definition set_fch (v : nat) (s : st) : st := mkSt (lockq s) (hold s) (wch s) (wclosed s) (w s) (job s) (mt s) v (fclosed s) (fl s) (l0 s) (c0 s) (oidle s) (ol0 s) (oli s) (olib s) (oexit s) (csig s) (bw s) (sig s) (stale s) (markalive s) (rdwait s) (g s) (gctaken s) (clo s) (drp s) (dkind s) (crashed s) (r_ok s) (r_blk s) (r_rd s) (r_misc s) (r_drop s) (r_dblk s).
+Definition set_fclosed (v : bool) (s : st) : st := mkSt (lockq s) (hold s) (wch s) (wclosed s) (w s) (job s) (mt s) (fch s) v (fl s) (l0 s) (c0 s) (oidle s) (ol0 s) (oli s) (olib s) (oexit s) (csig s) (bw s) (sig s) (stale s) (markalive s) (rdwait s) (g s) (gctaken s) (clo s) (drp s) (dkind s) (crashed s) (r_ok s) (r_blk s) (r_rd s) (r_misc s) (r_drop s) (r_dblk s).
+Definition set_fl (v : flst) (s : st) : st := mkSt (lockq s) (hold s) (wch s) (wclosed s) (w s) (job s) (mt s) (fch s) (fclosed s) v (l0 s) (c0 s) (oidle s) (ol0 s) (oli s) (olib s) (oexit s) (csig s) (bw s) (sig s) (stale s) (markalive s) (rdwait s) (g s) (gctaken s) (clo s) (drp s) (dkind s) (crashed s) (r_ok s) (r_blk s) (r_rd s) (r_misc s) (r_drop s) (r_dblk s).
+Definition set_l0 (v : nat) (s : st) : st := mkSt (lockq s) (hold s) (wch s) (wclosed s) (w s) (job s) (mt s) (fch s) (fclosed s) (fl s) v (c0 s) (oidle s) (ol0 s) (oli s) (olib s) (oexit s) (csig s) (bw s) (sig s) (stale s) (markalive s) (rdwait s) (g s) (gctaken s) (clo s) (drp s) (dkind s) (crashed s) (r_ok s) (r_blk s) (r_rd s) (r_misc s) (r_drop s) (r_dblk s).
+Definition set_c0 (v : cst) (s : st) : st := mkSt (lockq s) (hold s) (wch s) (wclosed s) (w s) (job s) (mt s) (fch s) (fclosed s) (fl s) (l0 s) v (oidle s) (ol0 s) (oli s) (olib s) (oexit s) (csig s) (bw s) (sig s) (stale s) (markalive s) (rdwait s) (g s) (gctaken s) (clo s) (drp s) (dkind s) (crashed s) (r_ok s) (r_blk s) (r_rd s) (r_misc s) (r_drop s) (r_dblk s).
+Definition set_oidle (v : nat) (s : st) : st := mkSt (lockq s) (hold s) (wch s) (wclosed s) (w s) (job s) (mt s) (fch s) (fclosed s) (fl s) (l0 s) (c0 s) v (ol0 s) (oli s) (olib s) (oexit s) (csig s) (bw s) (sig s) (stale s) (markalive s) (rdwait s) (g s) (gctaken s) (clo s) (drp s) (dkind s) (crashed s) (r_ok s) (r_blk s) (r_rd s) (r_misc s) (r_drop s) (r_dblk s).
+Definition set_ol0 (v : nat) (s : st) : st := mkSt (lockq s) (hold s) (wch s) (wclosed s) (w s) (job s) (mt s) (fch s) (fclosed s) (fl s) (l0 s) (c0 s) (oidle s) v (oli s) (olib s) (oexit s) (csig s) (bw s) (sig s) (stale s) (markalive s) (rdwait s) (g s) (gctaken s) (clo s) (drp s) (dkind s) (crashed s) (r_ok s) (r_blk s) (r_rd s) (r_misc s) (r_drop s) (r_dblk s).
+Definition set_oli (v : nat) (s : st) : st := mkSt (lockq s) (hold s) (wch s) (wclosed s) (w s) (job s) (mt s) (fch s) (fclosed s) (fl s) (l0 s) (c0 s) (oidle s) (ol0 s) v (olib s) (oexit s) (csig s) (bw s) (sig s) (stale s) (markalive s) (rdwait s) (g s) (gctaken s) (clo s) (drp s) (dkind s) (crashed s) (r_ok s) (r_blk s) (r_rd s) (r_misc s) (r_drop s) (r_dblk s).
+Definition set_olib (v : nat) (s : st) : st := mkSt (lockq s) (hold s) (wch s) (wclosed s) (w s) (job s) (mt s) (fch s) (fclosed s) (fl s) (l0 s) (c0 s) (oidle s) (ol0 s) (oli s) v (oexit s) (csig s) (bw s) (sig s) (stale s) (markalive s) (rdwait s) (g s) (gctaken s) (clo s) (drp s) (dkind s) (crashed s) (r_ok s) (r_blk s) (r_rd s) (r_misc s) (r_drop s) (r_dblk s).
+Definition set_oexit (v : nat) (s : st) : st := mkSt (lockq s) (hold s) (wch s) (wclosed s) (w s) (job s) (mt s) (fch s) (fclosed s) (fl s) (l0 s) (c0 s) (oidle s) (ol0 s) (oli s) (olib s) v (csig s) (bw s) (sig s) (stale s) (markalive s) (rdwait s) (g s) (gctaken s) (clo s) (drp s) (dkind s) (crashed s) (r_ok s) (r_blk s) (r_rd s) (r_misc s) (r_drop s) (r_dblk s).
+Definition set_csig (v : bool) (s : st) : st := mkSt (lockq s) (hold s) (wch s) (wclosed s) (w s) (job s) (mt s) (fch s) (fclosed s) (fl s) (l0 s) (c0 s) (oidle s) (ol0 s) (oli s) (olib s) (oexit s) v (bw s) (sig s) (stale s) (markalive s) (rdwait s) (g s) (gctaken s) (clo s) (drp s) (dkind s) (crashed s) (r_ok s) (r_blk s) (r_rd s) (r_misc s) (r_drop s) (r_dblk s).
+Definition set_bw (v : bool) (s : st) : st := mkSt (lockq s) (hold s) (wch s) (wclosed s) (w s) (job s) (mt s) (fch s) (fclosed s) (fl s) (l0 s) (c0 s) (oidle s) (ol0 s) (oli s) (olib s) (oexit s) (csig s) v (sig s) (stale s) (markalive s) (rdwait s) (g s) (gctaken s) (clo s) (drp s) (dkind s) (crashed s) (r_ok s) (r_blk s) (r_rd s) (r_misc s) (r_drop s) (r_dblk s).
+Definition set_sig (v : bool) (s : st) : st := mkSt (lockq s) (hold s) (wch s) (wclosed s) (w s) (job s) (mt s) (fch s) (fclosed s) (fl s) (l0 s) (c0 s) (oidle s) (ol0 s) (oli s) (olib s) (oexit s) (csig s) (bw s) v (stale s) (markalive s) (rdwait s) (g s) (gctaken s) (clo s) (drp s) (dkind s) (crashed s) (r_ok s) (r_blk s) (r_rd s) (r_misc s) (r_drop s) (r_dblk s).
+Definition set_stale (v : bool) (s : st) : st := mkSt (lockq s) (hold s) (wch s) (wclosed s) (w s) (job s) (mt s) (fch s) (fclosed s) (fl s) (l0 s) (c0 s) (oidle s) (ol0 s) (oli s) (olib s) (oexit s) (csig s) (bw s) (sig s) v (markalive s) (rdwait s) (g s) (gctaken s) (clo s) (drp s) (dkind s) (crashed s) (r_ok s) (r_blk s) (r_rd s) (r_misc s) (r_drop s) (r_dblk s).
+Definition set_markalive (v : bool) (s : st) : st := mkSt (lockq s) (hold s) (wch s) (wclosed s) (w s) (job s) (mt s) (fch s) (fclosed s) (fl s) (l0 s) (c0 s) (oidle s) (ol0 s) (oli s) (olib s) (oexit s) (csig s) (bw s) (sig s) (stale s) v (rdwait s) (g s) (gctaken s) (clo s) (drp s) (dkind s) (crashed s) (r_ok s) (r_blk s) (r_rd s) (r_misc s) (r_drop s) (r_dblk s).
+Definition set_rdwait (v : nat) (s : st) : st := mkSt (lockq s) (hold s) (wch s) (wclosed s) (w s) (job s) (mt s) (fch s) (fclosed s) (fl s) (l0 s) (c0 s) (oidle s) (ol0 s) (oli s) (olib s) (oexit s) (csig s) (bw s) (sig s) (stale s) (markalive s) v (g s) (gctaken s) (clo s) (drp s) (dkind s) (crashed s) (r_ok s) (r_blk s) (r_rd s) (r_misc s) (r_drop s) (r_dblk s).
+Definition set_g (v : gst) (s : st) : st := mkSt (lockq s) (hold s) (wch s) (wclosed s) (w s) (job s) (mt s) (fch s) (fclosed s) (fl s) (l0 s) (c0 s) (oidle s) (ol0 s) (oli s) (olib s) (oexit s) (csig s) (bw s) (sig s) (stale s) (markalive s) (rdwait s) v (gctaken s) (clo s) (drp s) (dkind s) (crashed s) (r_ok s) (r_blk s) (r_rd s) (r_misc s) (r_drop s) (r_dblk s).
+Definition set_gctaken (v : bool) (s : st) : st := mkSt (lockq s) (hold s) (wch s) (wclosed s) (w s) (job s) (mt s) (fch s) (fclosed s) (fl s) (l0 s) (c0 s) (oidle s) (ol0 s) (oli s) (olib s) (oexit s) (csig s) (bw s) (sig s) (stale s) (markalive s) (rdwait s) (g s) v (clo s) (drp s) (dkind s) (crashed s) (r_ok s) (r_blk s) (r_rd s) (r_misc s) (r_drop s) (r_dblk s).
+Definition set_clo (v : cph) (s : st) : st := mkSt (lockq s) (hold s) (wch s) (wclosed s) (w s) (job s) (mt s) (fch s) (fclosed s) (fl s) (l0 s) (c0 s) (oidle s) (ol0 s) (oli s) (olib s) (oexit s) (csig s) (bw s) (sig s) (stale s) (markalive s) (rdwait s) (g s) (gctaken s) v (drp s) (dkind s) (crashed s) (r_ok s) (r_blk s) (r_rd s) (r_misc s) (r_drop s) (r_dblk s).
+Definition set_drp (v : dph) (s : st) : st := mkSt (lockq s) (hold s) (wch s) (wclosed s) (w s) (job s) (mt s) (fch s) (fclosed s) (fl s) (l0 s) (c0 s) (oidle s) (ol0 s) (oli s) (olib s) (oexit s) (csig s) (bw s) (sig s) (stale s) (markalive s) (rdwait s) (g s) (gctaken s) (clo s) v (dkind s) (crashed s) (r_ok s) (r_blk s) (r_rd s) (r_misc s) (r_drop s) (r_dblk s).
+Definition set_dkind (v : bool) (s : st) : st := mkSt (lockq s) (hold s) (wch s) (wclosed s) (w s) (job s) (mt s) (fch s) (fclosed s) (fl s) (l0 s) (c0 s) (oidle s) (ol0 s) (oli s) (olib s) (oexit s) (csig s) (bw s) (sig s) (stale s) (markalive s) (rdwait s) (g s) (gctaken s) (clo s) (drp s) v (crashed s) (r_ok s) (r_blk s) (r_rd s) (r_misc s) (r_drop s) (r_dblk s).
+Definition set_crashed (v : bool) (s : st) : st := mkSt (lockq s) (hold s) (wch s) (wclosed s) (w s) (job s) (mt s) (fch s) (fclosed s) (fl s) (l0 s) (c0 s) (oidle s) (ol0 s) (oli s) (olib s) (oexit s) (csig s) (bw s) (sig s) (stale s) (markalive s) (rdwait s) (g s) (gctaken s) (clo s) (drp s) (dkind s) v (r_ok s) (r_blk s) (r_rd s) (r_misc s) (r_drop s) (r_dblk s).
+Definition set_r_ok (v : nat) (s : st) : st := mkSt (lockq s) (hold s) (wch s) (wclosed s) (w s) (job s) (mt s) (fch s) (fclosed s) (fl s) (l0 s) (c0 s) (oidle s) (ol0 s) (oli s) (olib s) (oexit s) (csig s) (bw s) (sig s) (stale s) (markalive s) (rdwait s) (g s) (gctaken s) (clo s) (drp s) (dkind s) (crashed s) v (r_blk s) (r_rd s) (r_misc s) (r_drop s) (r_dblk s).
+Definition set_r_blk (v : nat) (s : st) : st := mkSt (lockq s) (hold s) (wch s) (wclosed s) (w s) (job s) (mt s) (fch s) (fclosed s) (fl s) (l0 s) (c0 s) (oidle s) (ol0 s) (oli s) (olib s) (oexit s) (csig s) (bw s) (sig s) (stale s) (markalive s) (rdwait s) (g s) (gctaken s) (clo s) (drp s) (dkind s) (crashed s) (r_ok s) v (r_rd s) (r_misc s) (r_drop s) (r_dblk s).
+Definition set_r_rd (v : nat) (s : st) : st := mkSt (lockq s) (hold s) (wch s) (wclosed s) (w s) (job s) (mt s) (fch s) (fclosed s) (fl s) (l0 s) (c0 s) (oidle s) (ol0 s) (oli s) (olib s) (oexit s) (csig s) (bw s) (sig s) (stale s) (markalive s) (rdwait s) (g s) (gctaken s) (clo s) (drp s) (dkind s) (crashed s) (r_ok s) (r_blk s) v (r_misc s) (r_drop s) (r_dblk s).
+Definition set_r_misc (v : nat) (s : st) : st := mkSt (lockq s) (hold s) (wch s) (wclosed s) (w s) (job s) (mt s) (fch s) (fclosed s) (fl s) (l0 s) (c0 s) (oidle s) (ol0 s) (oli s) (olib s) (oexit s) (csig s) (bw s) (sig s) (stale s) (markalive s) (rdwait s) (g s) (gctaken s) (clo s) (drp s) (dkind s) (crashed s) (r_ok s) (r_blk s) (r_rd s) v (r_drop s) (r_dblk s).
+Definition set_r_drop (v : nat) (s : st) : st := mkSt (lockq s) (hold s) (wch s) (wclosed s) (w s) (job s) (mt s) (fch s) (fclosed s) (fl s) (l0 s) (c0 s) (oidle s) (ol0 s) (oli s) (olib s) (oexit s) (csig s) (bw s) (sig s) (stale s) (markalive s) (rdwait s) (g s) (gctaken s) (clo s) (drp s) (dkind s) (crashed s) (r_ok s) (r_blk s) (r_rd s) (r_misc s) v (r_dblk s).
+Definition set_r_dblk (v : nat) (s : st) : st := mkSt (lockq s) (hold s) (wch s) (wclosed s) (w s) (job s) (mt s) (fch s) (fclosed s) (fl s) (l0 s) (c0 s) (oidle s) (ol0 s) (oli s) (olib s) (oexit s) (csig s) (bw s) (sig s) (stale s) (markalive s) (rdwait s) (g s) (gctaken s) (clo s) (drp s) (dkind s) (crashed s) (r_ok s) (r_blk s) (r_rd s) (r_misc s) (r_drop s) v.
 
 Notation "s |> f" := (f s) (at level 50, left associativity, only parsing).
 
 Definition init (c : cfg) : st :=
   mkSt 0 HNone 0 false WIdle JNone MtEmpty 0 false FIdle 0
        (match cK c with 0 => CExit | _ => CIdle end) (cK c - 1) 0 0 0 0
-       false false false false true 0 GIdle false CNot DNone false 0 0 0 0 0 0.
+       false false false false true 0 GIdle false CNot DNone false false 0 0 0 0 0 0.
 
 Inductive lab :=
   (* a public call begins *)
-  | E_commit | E_read | E_close | E_drop | E_gc
+  | E_commit | E_read | E_close | E_drop (pfx : bool) | E_gc
   (* Txn.Commit: writeChLock, newCommitTs, sendToWriteCh *)
   | L_acq | H_conflict | H_ts | H_check | H_send
   (* doWrites *)
@@ -169,14 +175,14 @@ Inductive lab :=
   (* DB.close() *)
   | C_gc | C_sig | C_waitw | C_closech | C_mt | C_stopf | C_waitf | C_waitc | C_orc
   (* DropAll / DropPrefix *)
-  | D_sig | D_waitw | D_drain | D_default | D_stopf | D_waitf | D_flushmt | D_skipmt
+  | D_sig | D_waitw | D_drain | D_default | D_stopf | D_waitf | D_view | D_noview | D_flushmt | D_skipmt
   | D_stopc | D_waitc | D_do (z : nat) | D_restart.
 
 (* "work" = everything except the arrival of a new public call and the optional start of a
    compaction that does not touch level 0 *)
 Definition work (l : lab) : bool :=
   match l with
-  | E_commit | E_read | E_close | E_drop | E_gc | K0_startLi _ | KO_startLi _ => false
+  | E_commit | E_read | E_close | E_drop _ | E_gc | K0_startLi _ | KO_startLi _ => false
   | _ => true
   end.
 
@@ -226,12 +232,13 @@ Definition step (strict : bool) (c : cfg) (s : st) (l : lab) : option st :=
           else Some (s |> set_bw true |> set_clo CGC)
       | _, _ => None
       end
-  | E_drop =>                                    (* blockWrite: CompareAndSwap(0, 1) *)
-      match drp s with
-      | DNone => if bw s then Some (s |> set_r_dblk (r_dblk s + 1))
-                 else Some (s |> set_bw true |> set_drp DSig)
-      | _ => if bw s then Some (s |> set_r_dblk (r_dblk s + 1)) else None
-      end
+  | E_drop pfx =>                                (* blockWrite: CompareAndSwap(0, 1) *)
+      if bw s then Some (s |> set_r_dblk (r_dblk s + 1))        (* ErrBlockedWrites *)
+      else match drp s with
+           | DNone => if strict && (is_passed (hold s) || is_gpassed (g s)) then None
+                      else Some (s |> set_bw true |> set_drp DSig |> set_dkind pfx)
+           | _ => None
+           end
   | E_gc =>                                      (* vlog.runGC: select on garbageCh *)
       match g s with
       | GIdle => if gctaken s then Some (s |> set_r_misc (r_misc s + 1)) else Some (s |> set_g GRun)
@@ -404,9 +411,17 @@ Definition step (strict : bool) (c : cfg) (s : st) (l : lab) : option st :=
                  | DDrain k, JNone => if wch s =? 0 then Some (s |> set_job (JRun k k) |> set_drp DWrite) else None
                  | _, _ => None end
   | D_stopf => match drp s with DStopF => Some (s |> set_fclosed true |> set_drp DWaitF) | _ => None end
-  | D_waitf => match drp s, fl s with DWaitF, FExited => Some (s |> set_drp DFlushMt) | _, _ => None end
+  | D_waitf => match drp s, fl s with DWaitF, FExited => Some (s |> set_drp DView) | _, _ => None end
+  | D_view =>                                     (* DropPrefix: filterPrefixesToDrop -> db.View -> readTs *)
+      match drp s with
+      | DView => if dkind s && (inflight_ts s =? 0) && negb (stale s) then Some (s |> set_drp DFlushMt) else None
+      | _ => None end
+  | D_noview => match drp s with                  (* DropAll reads nothing *)
+                | DView => if dkind s then None else Some (s |> set_drp DFlushMt)
+                | _ => None end
   | D_flushmt => match drp s with                 (* DropPrefix: handleMemTableFlush under db.lock *)
-                 | DFlushMt => match mt s with
+                 | DFlushMt => if negb (dkind s) then None else
+                               match mt s with
                                | MtEmpty => Some (s |> set_drp DStopC)
                                | MtNil => None
                                | _ => if l0 s <? cS c then Some (s |> set_l0 (l0 s + 1) |> set_mt MtEmpty |> set_drp DStopC)
@@ -414,7 +429,8 @@ Definition step (strict : bool) (c : cfg) (s : st) (l : lab) : option st :=
                                end
                  | _ => None end
   | D_skipmt => match drp s with                  (* DropAll: memtables are thrown away *)
-                | DFlushMt => match mt s with MtNil => None | _ => Some (s |> set_mt MtEmpty |> set_drp DStopC) end
+                | DFlushMt => if dkind s then None else
+                              match mt s with MtNil => None | _ => Some (s |> set_mt MtEmpty |> set_drp DStopC) end
                 | _ => None end
   | D_stopc => match drp s with DStopC => Some (s |> set_csig true |> set_drp DWaitC) | _ => None end
   | D_waitc => match drp s with
@@ -452,7 +468,8 @@ Definition candidates : list lab :=
     H_ts; H_check; H_send; L_acq;
     G_check; G_send; G_done; R_pass;
     C_gc; C_sig; C_waitw; C_closech; C_mt; C_stopf; C_waitf; C_waitc; C_orc;
-    D_sig; D_waitw; D_drain; D_default; D_stopf; D_waitf; D_flushmt; D_stopc; D_waitc; D_do 0; D_restart ].
+    D_sig; D_waitw; D_drain; D_default; D_stopf; D_waitf; D_view; D_noview; D_flushmt; D_skipmt;
+    D_stopc; D_waitc; D_do 0; D_restart ].
 
 Definition enabled (strict : bool) (c : cfg) (s : st) (l : lab) : bool :=
   match step strict c s l with Some _ => true | None => false end.
@@ -488,8 +505,8 @@ Definition rk_drp (c : cfg) (x : dph) : nat :=
   match x with
   | DNone => 0
   | DRestart => cK c + 10 | DDo => cK c + 11 | DWaitC => cK c + 12 | DStopC => cK c + 13
-  | DFlushMt => cK c + 16 | DWaitF => cK c + 17 | DStopF => cK c + 18 | DWrite => cK c + 19
-  | DDrain _ => cK c + 21 | DWaitW => cK c + 22 | DSig => cK c + 23
+  | DFlushMt => cK c + 16 | DView => cK c + 17 | DWaitF => cK c + 18 | DStopF => cK c + 19
+  | DWrite => cK c + 20 | DDrain _ => cK c + 22 | DWaitW => cK c + 23 | DSig => cK c + 24
   end.
 
 Definition mu (c : cfg) (s : st) : nat :=
@@ -538,6 +555,13 @@ Definition sched_f14_panic : list lab :=
    the commit then fails its blockWrites check and calls doneCommit, which nobody processes. *)
 Definition sched_newtxn_hang : list lab :=
   [E_commit; L_acq; H_ts; E_read; E_close] ++ close_to_writer_exit ++ close_rest ++ [H_check].
+
+(* DropPrefix racing a commit: the commit passes the blockWrites check; DropPrefix blocks writes,
+   the writer exits, prepareToDrop drains; the commit sends (buffered until unblockWrite);
+   DropPrefix's filterPrefixesToDrop opens a View whose readTs waits for that commit: cycle. *)
+Definition sched_drop_hang : list lab :=
+  [E_commit; L_acq; H_ts; H_check; E_drop true; D_sig; W_sig; W_default; W_final; J_done; D_waitw;
+   D_default; J_done; H_send; D_stopf; F_exit; D_waitf].
 
 (* without compactors (NumCompactors = 0 is accepted by Open) a level-0 stall is permanent *)
 Definition cfg0 : cfg := mkCfg 2 6 1 0 1 0.
